@@ -8,3 +8,8 @@ import "time"
 // is itself race free).
 func (r *Hosts) VerifExpire() { r.mu.Lock(); r.expires = time.Time{}; r.fileInfo = fileInfo{}; r.mu.Unlock() }
 func (r *DHCP) VerifExpire()  { r.mu.Lock(); r.expires = time.Time{}; r.fileInfo = fileInfo{}; r.mu.Unlock() }
+
+// VerifAdvance lets d of waiting pass for the refresh logic: the time of the next check moves d
+// closer (the tables and the remembered file state stay as they are).
+func (r *Hosts) VerifAdvance(d time.Duration) { r.mu.Lock(); r.expires = r.expires.Add(-d); r.mu.Unlock() }
+func (r *DHCP) VerifAdvance(d time.Duration)  { r.mu.Lock(); r.expires = r.expires.Add(-d); r.mu.Unlock() }
